@@ -117,7 +117,8 @@ def run_histories(r, rng, T, make_session, direct, req_cases, on_request=None):
     from pydap.client import open_url
     nh = 30 if T == "quick" else 400
     for hi in range(nh):
-        app = build_app(gzip=rng.random() < 0.4)      # a compressed body reaches the client in blocks not aligned to records
+        # a compressed body reaches the client in blocks not aligned to records (the first four histories: both settings, whatever the seed)
+        app = build_app(gzip=(hi % 2 == 0) if hi < 4 else rng.random() < 0.4)
         sess, adapter = make_session(app)
         if sess is None:          # the in-process mode: open_url(url, application=app), no session at all
             ds = open_url(TR.BASE + "/d", application=adapter, protocol="dap2", output_grid=True)
@@ -129,7 +130,11 @@ def run_histories(r, rng, T, make_session, direct, req_cases, on_request=None):
         held = []
         L = rng.randint(3, 8)
         forced = []
-        if rng.random() < 0.3:
+        if hi < 4:
+            # scripted opening: two reads of the SAME object that overlap in time - consumed in lock step, then one suspended after
+            # its first record while another one runs to its end
+            forced = [("overlap", ("same",)), ("overlap", ("suspend",))]
+        elif rng.random() < 0.3:
             # scripted opening: select columns by a list, derive once more, then ask for a column the selection left out
             sub = rng.sample(HD, rng.randint(1, 2))
             forced = [("cols", ("cols", tuple(sub))), (rng.choice(["cond", "slice"]), None),
@@ -147,7 +152,19 @@ def run_histories(r, rng, T, make_session, direct, req_cases, on_request=None):
                 try:
                     o1 = rng.choice(objs)
                     o2 = rng.choice(objs)
-                    if rng.random() < 0.5:
+                    if op_forced:
+                        o1 = o2 = objs[0]
+                    if op_forced and op_forced[0] == "suspend":
+                        it = iter(o1[1].iterdata())
+                        first = [next(it)]
+                        whole = [[int(x) for x in v] for v in o1[1].iterdata()]
+                        resumed = [[int(x) for x in v] for v in first + list(it)]
+                        w1 = reference(o1[2])
+                        if whole != w1 or resumed != w1:
+                            direct.append({"law": "a read suspended after its first record and resumed after another read of the same object "
+                                                  "returns what it returns alone", "chain": repr(o1[2]), "whole": whole, "resumed": resumed,
+                                           "want": w1, "history": hi})
+                    elif not op_forced and rng.random() < 0.5:
                         it = iter(o1[1].iterdata())
                         next(it, None)
                         del it
@@ -330,8 +347,14 @@ def main():
     proof_phase(r, PID)
     use_repo()
     direct, req_cases = [], []
+    calls = []
+
     def some_transport(app):
-        # a session mounted on the application, or the application itself (webob hands the body over in the server's own blocks)
+        # a session mounted on the application, or the application itself (webob hands the body over in the server's own blocks);
+        # the first four histories: in process, in process, session, session (x gzip on / off, see run_histories)
+        calls.append(1)
+        if len(calls) <= 4:
+            return (None, Recorder(app)) if len(calls) <= 2 else TR.plain_session(app)
         return TR.plain_session(app) if rng.random() < 0.5 else (None, Recorder(app))
     nh = run_histories(r, rng, T, some_transport, direct, req_cases)
     r.extra["histories"] = nh
